@@ -80,6 +80,13 @@ def text_inputs(seed, tier):
             cases.append(["prin_full", list((7).to_bytes(4, "big") + len(desc).to_bytes(4, "big") + desc)])
         des = bytes([0x53, 0x08, 0, len(raw)]) + raw                  # code set UTF-8, designator type 8 (SCSI name string)
         cases.append(["inquiry_vpd", list(bytes([0, 0x83]) + len(des).to_bytes(2, "big") + des)])
+    # descriptor-format sense data whose descriptors nest (forwarded sense data, type 0Ch, carrying descriptor-format sense again), with
+    # honest and with over-long inner lengths: a decoder that re-reads overlapping parts does exponential work on these
+    for k in (2, 5, 10, 20, 30, 40):
+        for inner_len in (0x04, 0xFF, 0x20):
+            body = bytes([0x0C, 0x04, 0xFF, 0xFF, 0x72, inner_len]) * k
+            for rc in (0x72, 0x73):
+                cases.append(["sense", list((bytes([rc, 0x05, 0x24, 0x00, 0, 0, 0, min(len(body), 244)]) + body)[:252])])
     return cases
 
 
